@@ -278,7 +278,52 @@ func runC22(c *Ctx) {
 // list that flushes through a writer has its snapshot registered there; and
 // the integer byte form the index order rests on is the paired one (rules of
 // C23, re-run here as C22.key-encoding/…).
+// runC22Third: a nested RLP reader's two limits (stream limit and largest byte string) describe the
+// same payload size.
+func runC22Third(c *Ctx) {
+	f := c.mustFn("common/codec", "rlpReader", "readList")
+	if f == nil {
+		return
+	}
+	type lim struct{ stream, maxsb ssa.Value }
+	lims := map[ssa.Value]*lim{}
+	var order []ssa.Value
+	for _, st := range fieldStoresAny([]*ssa.Function{f}, "rlpReader") {
+		al := st.Addr.X
+		if _, isAl := al.(*ssa.Alloc); !isAl {
+			continue
+		}
+		if lims[al] == nil {
+			lims[al] = &lim{}
+			order = append(order, al)
+		}
+		cl, isCall := unwrap(st.Store.Val).(*ssa.Call)
+		if !isCall || len(cl.Call.Args) < 2 {
+			continue
+		}
+		switch faName(st.Addr) {
+		case "reader":
+			lims[al].stream = unwrap(cl.Call.Args[1])
+		case "maxSB":
+			lims[al].maxsb = unwrap(cl.Call.Args[1])
+		}
+	}
+	n := 0
+	for _, al := range order {
+		l := lims[al]
+		if l.stream == nil || l.maxsb == nil {
+			continue
+		}
+		n++
+		c.check(l.stream == l.maxsb, "C22.key-encoding/list-limits", "a nested list reader limits its stream and its byte strings by the same payload size", al.Pos(), render(l.stream), "the stream is limited to "+render(l.stream)+" bytes but byte strings to "+render(l.maxsb)+": a string that fits the list is refused (or one that cannot fit is attempted)")
+	}
+	if n < 2 {
+		c.undecided("C22.key-encoding/list-limits", "rlpReader.readList", f.Pos(), fmt.Sprintf("expected the short and the long list form, found %d nested readers", n))
+	}
+}
+
 func runC22Extra(c *Ctx) {
+	runC22Third(c)
 	for _, s := range [][3]string{
 		{"service/transaction", "transactionList", "Get"},
 		{"service/txresult", "receiptList", "Get"},
